@@ -477,6 +477,7 @@ def explore_stack(spec, tables: list[dict], key_list: list[int], depth_cap: int,
         f_midx = mi[keep]
         layers.append([(int(si[j]), ("step", np.asarray(a_out[j]).tolist(), int(key_list[ki[j]]))) for j in keep])
         n_states += len(keep)
+    jax.clear_caches()  # every stack compiles its own drivers; keep worker memory bounded over hundreds of stacks
     stats["states"] = stats.get("states", 0) + n_states
     stats["transitions"] = stats.get("transitions", 0) + n_trans
     stats["frontier_left"] = stats.get("frontier_left", 0) + len(f_midx)
